@@ -1,14 +1,16 @@
 """Rule registry and the property -> rules table (DESIGN.md sections 3 and 4)."""
 from __future__ import annotations
 
-from .rules import dp, decode
+from .rules import dp, decode, cost
 
 RULES = {}
 RULES.update(dp.RULES)
 RULES.update(decode.RULES)
+RULES.update(cost.RULES)
 
 PROPERTY_RULES = {
     "T00": list(decode.RULES),
+    "T01": list(cost.RULES),
     "C16": ["UPDATE-PAIRING", "RETENTION-GUARDS", "POLARITY", "PROXY-NONE", "COMBINE-PRODUCT"],
 }
 
